@@ -246,6 +246,35 @@ func runIterConfig(c *explore.Ctx, scope string, idx int64, cfg *iterCfg, crossV
 			firstErr = err
 			return
 		}
+		// the optimiser's view of a fresh iterator: ActualBitmap() holds exactly the non-excluded
+		// postings of a general list; DocNum1Hit() names the document of an unconsumed 1-hit list
+		if cfg.replace == nil && len(cfg.all) > 0 {
+			if it, err := pl.Iterator(cfg.flags&1 != 0, cfg.flags&2 != 0, cfg.flags&4 != 0, nil); err == nil {
+				if o, ok := it.(segment.OptimizablePostingsIterator); ok {
+					d1, is1 := o.DocNum1Hit()
+					abm := o.ActualBitmap()
+					switch {
+					case abm != nil:
+						var got []uint64
+						for _, x := range abm.ToArray() {
+							got = append(got, uint64(x))
+						}
+						var want []uint64
+						for _, e := range cfg.exp {
+							want = append(want, e.doc)
+						}
+						if fmt.Sprint(got) != fmt.Sprint(want) || is1 {
+							c.Violate(scope, idx, "C05/optimizable/actual-bitmap", fmt.Sprintf("ActualBitmap()=%v DocNum1Hit=(%d,%v), non-excluded postings %v", got, d1, is1, want), cfg.desc)
+						}
+					default:
+						// 1-hit encoded list
+						if len(cfg.exp) == 1 && (!is1 || d1 != cfg.exp[0].doc) || len(cfg.exp) == 0 && is1 {
+							c.Violate(scope, idx, "C05/optimizable/docnum1hit", fmt.Sprintf("DocNum1Hit()=(%d,%v), non-excluded postings %v", d1, is1, cfg.exp), cfg.desc)
+						}
+					}
+				}
+			}
+		}
 		if cfg.replace == nil {
 			if got := pl.Count(); got != uint64(len(cfg.exp)) {
 				c.Violate(scope, idx, "C05/count/postingslist", fmt.Sprintf("PostingsList.Count()=%d, non-excluded postings=%d", got, len(cfg.exp)), cfg.desc)
